@@ -473,14 +473,14 @@ pub fn run(cfg: &Cfg, rep: &mut Report) {
   // thread part: the operators' timer tasks run on a managed worker thread
   // while 1-2 producer threads emit (and one may unsubscribe)
   let n = cfg.n(8_000, 400_000);
-  let fams = [15usize, 16, 17];
+  let fams = [15usize, 16, 17, 24, 25];
   super::thr::systematic_families(cfg, rep, 0xC09A, &fams, &|_, _| {}, &|o, s| super::thr::rate_oracle(o, s).or_else(|| super::thr::rate_linearizable(o, s)));
   super::thr::campaign(cfg, rep, "thr", n, 0xC09F, &mut |r: &mut Rng| {
-    let f = fams[r.below(3)];
+    let f = fams[r.below(fams.len())];
     super::thr::random_scen(r, f)
   }, &|o, s| super::thr::rate_oracle(o, s).or_else(|| super::thr::rate_linearizable(o, s)));
   super::thr::free_campaign(cfg, rep, cfg.n(1_500, 150_000), 0xC09E, &mut |r: &mut Rng| {
-    let f = fams[r.below(3)];
+    let f = fams[r.below(fams.len())];
     super::thr::random_scen(r, f)
   }, &|o, s| super::thr::rate_oracle(o, s).or_else(|| super::thr::rate_linearizable(o, s)));
 }
